@@ -138,24 +138,55 @@ def run(chk, repo):
     chk.rule('C17.d', 'intron tolerance offsets are strand-mirrored', 2)
     fi = repo.func('gtf.GenomicAnnotation:GenomicAnnotation.find_intron_index')
     chk.uses(fi)
+    # value based: the quantity tested against each tolerance range (a parameter), per strand branch, as an affine form over
+    # feature.location.{start,end} and <exon>.location.{start,end}; local names and intermediate variables do not matter
+    from sa import sem as _s17
+    from sa.affine import simple_aff
+    nfi = _s17.nf(repo, fi)
+    ch17 = _s17.block_chains(nfi)
+    pars = [a.arg for a in nfi.args.args]
+    if 'intron_start_range' not in pars or 'intron_end_range' not in pars or 'feature' not in pars:
+        raise AnalysisError('anchor=find_intron_index: tolerance range parameters not found')
+
+    def rng_cmp(e, rng):
+        return [c for c in ast.walk(e) if isinstance(c, ast.Compare) and len(c.ops) == 1 and isinstance(c.ops[0], (ast.In, ast.NotIn))
+                and unparse(c.comparators[0]) == rng]
     offs = {}
-    for n in ast.walk(fi.node):
-        if isinstance(n, ast.Assign) and unparse(n.targets[0]) in ('start_offset', 'end_offset'):
+    for rng, k in (('intron_start_range', 'start_offset'), ('intron_end_range', 'end_offset')):
+        for tst, own, fx in _s17.facts_at_tests(nfi, lambda e, rng=rng: bool(rng_cmp(e, rng))):
             strand = None
-            for a in repo.ancestors(n):
-                if isinstance(a, ast.If) and unparse(a.test) in ('strand == 1', 'strand == -1'):
-                    # which branch contains n
-                    strand = 1 if unparse(a.test) == 'strand == 1' and any(n in list(ast.walk(s)) for s in a.body) else strand
-                    if unparse(a.test) == 'strand == -1' and any(n in list(ast.walk(s)) for s in a.body):
-                        strand = -1
-            offs[(unparse(n.targets[0]), strand)] = unparse(n.value).replace(' ', '')
-    want = {('start_offset', 1): 'feature.location.start-exon.location.end', ('end_offset', 1): 'feature.location.end-exon.location.start',
-            ('start_offset', -1): '-(feature.location.end-exon.location.start)', ('end_offset', -1): '-(feature.location.start-exon.location.end)'}
+            for (lt, tv) in _s17.sure_literals(fx):
+                m0 = re.match(r'^(-?1) == (?:.*\.)?strand$', lt)
+                if m0 and tv:
+                    strand = int(m0.group(1))
+            for c in rng_cmp(tst, rng):
+                # the tested quantity is the value of its defining assignment (expanded AT the definition)
+                e_ = c.left
+                if isinstance(e_, ast.Name):
+                    r_ = _s17.nearest_def_stmt(nfi, own, e_.id, ch17)
+                    if r_ is not None and e_.id not in _s17._stores_in(r_[1]):
+                        e_ = _s17.expand_names(nfi, r_[0], r_[0].value, chains=ch17)
+                else:
+                    e_ = _s17.expand_names(nfi, own, e_, chains=ch17)
+                a = simple_aff(e_)
+                form = None
+                if a is not None and a.c == 0 and len(a.t) == 2:
+                    form = {}
+                    for sym, co in a.t.items():
+                        m_ = re.match(r'^(\w+)\.location\.(start|end)$', sym)
+                        if not m_:
+                            form = None
+                            break
+                        form[('F' if m_.group(1) == 'feature' else 'E') + '.' + m_.group(2)] = int(co)
+                offs.setdefault((k, strand), []).append(form)
+    want = {('start_offset', 1): {'F.start': 1, 'E.end': -1}, ('end_offset', 1): {'F.end': 1, 'E.start': -1},
+            ('start_offset', -1): {'F.end': -1, 'E.start': 1}, ('end_offset', -1): {'F.start': -1, 'E.end': 1}}
     for k in ('start_offset', 'end_offset'):
-        chk.ob('C17.d', f"{k}: - strand value is the negated mirrored + strand difference", fi.where,
-               offs.get((k, 1)) == want[(k, 1)] and offs.get((k, -1)) == want[(k, -1)],
-               f"{k}: + '{offs.get((k, 1))}', - '{offs.get((k, -1))}' (expected '{want[(k, 1)]}' / '{want[(k, -1)]}'): the tolerance window is applied mirrored on the - strand",
-               key=fi.qual + f'::{k}', fn=fi.qual)
+        ok17 = all(offs.get((k, s_)) and all(f_ == want[(k, s_)] for f_ in offs[(k, s_)]) for s_ in (1, -1)) and not offs.get((k, None))
+        chk.ob('C17.d', f"{k}: - strand value is the negated mirrored + strand difference", fi.where, ok17,
+               f"{k}: + {offs.get((k, 1))}, - {offs.get((k, -1))}, outside the strand branches {offs.get((k, None))} (expected {want[(k, 1)]} / {want[(k, -1)]}; "
+               "F = the intron, E = the exon looked at): the tolerance window is applied mirrored on the - strand",
+               key=fi.qual + '::' + k, fn=fi.qual)
 
     # pairing of offsets and tolerance ranges
     chk.rule('C17.e', 'tolerance tests pair start_offset with intron_start_range and end_offset with intron_end_range; CIRCexplorer3 thresholds all effective', 3)
